@@ -86,6 +86,12 @@ def rule_r1(chk, db, g):
             if cbi in blocks and ybi in blocks:
                 if not flow.must_pass(g, [ybi], some, start=head):
                     ok = False
+        if not ok:
+            # the chunk may reach the yield through a stored decision (`while let Some(data) = decoder.next_chunk(..).await?`): what holds at
+            # every construction of the matched value holds at the yield - among it, the verified outcome of this iteration's check
+            f = guards.dominating_facts(g, ybi)
+            ok = any((x[0] == "enum" and x[3] is not None and x[3][0] == ct["dst"]["l"] and not x[3][1] and x[2] <= frozenset(["Some", "Ok", "Continue"])) or
+                     (x[0] == "call" and x[2] is True and x[3] == cbi) for x in f)
         chk.verdict(ok, "R1", "verify-before-yield", g.loc(ybi), "chunk data can be yielded to the backend without the Some (verified) outcome of check_signature in the same iteration")
         # identity: yielded value and verified data share the read_data call
         ysl = flow.backward(g, yt["args"][1], at=ybi)
